@@ -341,7 +341,7 @@ Theorem gcdext_spec_unique : forall a b g s t g' s' t',
   gmp_gcdext_spec a b g s t -> gmp_gcdext_spec a b g' s' t' -> g = g' /\ s = s' /\ t = t'.
 Proof.
   intros a b g s t g' s' t' (Hg & Hbez & Hn) (Hg' & Hbez' & Hn').
-  split; [congruence|]. subst g'.
+  rewrite <- Hg in Hg'. subst g'. split; [reflexivity|].
   destruct (Z.abs a =? Z.abs b) eqn:Eab.
   { destruct Hn as [-> ->], Hn' as [-> ->]. auto. }
   assert (Hg0 : 0 < g).
